@@ -269,7 +269,7 @@ class FakeMultiprocessing(object):
 
 # ----------------------------------------------------------------------------- explorer
 
-def explore(run, bound=None, max_runs=None):
+def explore(run, bound=None, max_runs=None, is_bad=None, max_bad=None):
     """Deviation-bounded stateless exploration.
 
     run(prefix) -> (chooser, observation); chooser.points/choices describe the decision
@@ -278,6 +278,7 @@ def explore(run, bound=None, max_runs=None):
     max_runs cut the exploration short."""
     out = []
     capped = False
+    nbad = 0
     stack = [()]
     while stack:
         prefix = stack.pop()
@@ -288,6 +289,11 @@ def explore(run, bound=None, max_runs=None):
         if list(ch.choices[:len(prefix)]) != list(prefix):
             raise RuntimeError("replay divergence: prefix %s executed as %s" % (prefix, ch.choices))
         out.append((tuple(ch.choices), obs))
+        if is_bad is not None and max_bad is not None and is_bad(obs):
+            nbad += 1
+            if nbad >= max_bad:      # the violation is established; the remaining schedules are not needed
+                capped = True
+                break
         dev_prefix = sum(1 for c in prefix if c)
         for i in range(len(ch.choices) - 1, len(prefix) - 1, -1):
             # deviations before point i on this run (all defaults after the prefix)
